@@ -388,6 +388,14 @@ impl Ctx {
             let st = a.subs.entry(sub.to_string()).or_default();
             st.kind = "random".into();
         }
+        // The thorough tier runs `VERIF_THOROUGH_MULT` (default 3) times the number of cases
+        // the property module asks for: depth knob for long campaigns.
+        let cases = if self.tier == Tier::Thorough {
+            let m = std::env::var("VERIF_THOROUGH_MULT").ok().and_then(|v| v.parse::<u32>().ok()).unwrap_or(3).max(1);
+            cases.saturating_mul(m)
+        } else {
+            cases
+        };
         let per = cases.div_ceil(WORKERS as u32).max(1);
         let stop_all = AtomicBool::new(false);
         let stop_all = &stop_all;
